@@ -120,6 +120,9 @@ def cases(tier, rng):
                                     nl = rng.random() < 0.8
                                     yield {"op": "read", "fmt": fmt, "header": header, "ents": bad, "i": i, "kind": kind, "k": k, "gz": gz,
                                            "lazy": lazy, "nl": nl}
+                        if big or rng.random() < 0.3:      # f.read(): the whole file at once (a separate reader method)
+                            yield {"op": "read", "fmt": fmt, "header": header, "ents": bad, "i": i, "kind": kind, "k": L + 10, "gz": rng.random() < 0.5,
+                                   "lazy": rng.random() < 0.5, "nl": rng.random() < 0.8, "via": "whole"}
     # SEVERAL violations in one file: the first offending record must be named whatever the chunking
     for fmt, pairs in (("fastq", [("plus", "marker"), ("marker", "plus"), ("plus", "plus"), ("marker", "marker")]),
                        ("fasta2line", [("marker", "marker")]), ("bed6", [("strand", "nonnum"), ("nonnum", "strand"), ("tok:4:7x", "nonnum")])):
@@ -221,6 +224,8 @@ def impl(c):
         if via == "count":
             return {"table": int(bnp.count_entries(path, buffer_type=bt))}
         with bnp.open(path, buffer_type=bt, lazy=c["lazy"]) as f:
+            if via == "whole":
+                return {"table": len(c01.table_rows(f.read()))}
             for chunk in f.read_chunks(min_chunk_size=c["k"]):
                 rows += len(c01.table_rows(chunk))
         return {"table": rows}
